@@ -360,19 +360,15 @@ def case_sampling_escalation(rep):
             try:
                 rc = list(CVR.consistent_sampling(cvr_list=cards, contests=cons, sampled_cvr_indices=list(r1)))
             except Exception as ex:
-                rep.fail("continue: does not raise", inp, got=type(ex).__name__ + ": " + str(ex)[:80], known="K5" if skipped else None)
+                rep.fail("continue: does not raise", inp, got=type(ex).__name__ + ": " + str(ex)[:80])
                 continue
             if not (sorted(rc) == sorted(exp2) and len(set(rc)) == len(rc)):
                 rep.fail("continue: same cards as a fresh draw with the new sizes, no repetition", inp,
-                         got={"continued": rc}, expected={"fresh": exp2}, known="K5" if skipped else None)
+                         got={"continued": rc}, expected={"fresh": exp2})
             elif not all(cons[c].sample_threshold == thr2[c] for c in contests if sizes2[c] >= 1):
-                # K5 (recorded): thresholds are only revisited for newly walked cards, so the threshold of a contest whose size GREW is
-                # stale / unset when a card selected earlier already serves it.  A contest whose size did not change must simply keep
-                # its threshold: a wrong one there is not K5.
-                wrong = [c for c in contests if sizes2[c] >= 1 and cons[c].sample_threshold != thr2[c]]
+                # (was known finding K5 until fix 9bfcd8d: the continuation now recomputes every threshold)
                 rep.fail("continue: thresholds as a fresh draw with the new sizes", inp,
-                         got={c: cons[c].sample_threshold for c in contests}, expected=thr2,
-                         known="K5" if (skipped or all(sizes2[c] > sizes[c] for c in wrong)) else None)
+                         got={c: cons[c].sample_threshold for c in contests}, expected=thr2)
     rep.sample({"styles": [["A"], [], ["A"]], "sample_nums": [1.5, 3.0, 4.5], "round1": {"A": 1, "B": 0}, "round2": {"A": 2, "B": 0}})
 
 
